@@ -137,28 +137,24 @@ def check_markers_and_async(report, lib: Lib):
 
 def check_embedding(report, lib: Lib):
     r4 = report.rule("C14.4", "the method docstring embeds snippet.full_snippet (between START and END) for the matching client kind", floor=3)
-    ts = lib.ts
-    for tname, sync in ((SVC + "_client_macros.j2", "True"), (SVC + "async_client.py.j2", "False")):
-        tree = ts.parse(tname)
-        withs = [w for w in tree.find_all(nodes.With) if any(isinstance(t, nodes.Name) and t.name == "snippet" for t in w.targets)]
+    # Read off the skeletons' recorded uses (canonical access paths, independent of `with` / `set` aliases and of macros the
+    # printing may have been moved into): the docstring prints <get_snippet(service.name, <method>.name, sync=...)>.full_snippet,
+    # and only under `... is not none`.
+    from ..tmodel import f_atoms
+    for tname, sync in ((SVC + "client.py.j2", "True"), (SVC + "async_client.py.j2", "False")):
+        GET = f"snippet_index.get_snippet(service.name, ELEM(service.methods.values()).name, sync={sync})"
+        prints, other = [], []
+        for sk in lib.variants(tname, transport=("grpc", "rest")):
+            for (canon, kind), v in sk.uses.items():
+                if "get_snippet(" in canon and kind == "print":
+                    (prints if canon == GET + ".full_snippet" else other).append((canon, v))
         r4.instance(tname.split("/")[-1])
-        r4.check(len(withs) == 1, ts.path(tname), 0, "{% with snippet = snippet_index.get_snippet(...) %}", "snippet lookup missing")
-        if not withs:
-            continue
-        w = withs[0]
-        v = w.values[0]
-        ok = isinstance(v, nodes.Call) and isinstance(v.node, nodes.Getattr) and v.node.attr == "get_snippet" and len(v.args) == 2 \
-            and isinstance(v.args[0], nodes.Getattr) and v.args[0].attr == "name" and isinstance(v.args[0].node, nodes.Name) and v.args[0].node.name == "service" \
-            and isinstance(v.args[1], nodes.Getattr) and v.args[1].attr == "name" and isinstance(v.args[1].node, nodes.Name) and v.args[1].node.name == "method" \
-            and len(v.kwargs) == 1 and v.kwargs[0].key == "sync" and isinstance(v.kwargs[0].value, nodes.Const) and str(v.kwargs[0].value.value) == sync
-        r4.check(ok, ts.path(tname), w.lineno, "get_snippet(service.name, method.name, sync=%s)" % sync,
-                 f"the {'sync' if sync == 'True' else 'asyncio'} client must embed the {'sync' if sync == 'True' else 'async'} sample of the same rpc")
-        ifs = [i for i in w.find_all(nodes.If)]
-        okg = len(ifs) == 1 and isinstance(ifs[0].test, nodes.Not) and isinstance(ifs[0].test.node, nodes.Test) and ifs[0].test.node.name == "none"
-        r4.check(okg, ts.path(tname), w.lineno, "{% if snippet is not none %}", "the code block is printed only when a snippet exists")
-        outs = [f for f in w.find_all(nodes.Filter) if f.name == "indent" and isinstance(f.node, nodes.Getattr) and f.node.attr == "full_snippet"]
-        oki = len(outs) == 1 and {k.key: getattr(k.value, "value", None) for k in outs[0].kwargs} == {"width": 12, "first": True}
-        r4.check(oki, ts.path(tname), w.lineno, "snippet.full_snippet|indent(width=12, first=True)", "the embedded text must be exactly full_snippet, indented")
+        r4.check(bool(prints), lib.path(tname), 0, f"{{{{ {GET}.full_snippet }}}}",
+                 f"the {'sync' if sync == 'True' else 'asyncio'} client must embed the {'sync' if sync == 'True' else 'async'} sample of the same rpc "
+                 f"(full_snippet of get_snippet(service.name, method.name, sync={sync}))")
+        r4.check(not other, lib.path(tname), 0, f"other snippet text printed: {sorted({c for c, _ in other})[:2]}", "the embedded text must be exactly full_snippet")
+        guarded = all(any(f"{GET} is none" in f_atoms(g) for g in v[3]) for _, v in prints)
+        r4.check(guarded and bool(prints), lib.path(tname), 0, "{% if snippet is not none %}", "the code block is printed only when a snippet exists")
     m = pm()
     fs = m.func("gapic.samplegen_utils.snippet_index.Snippet.full_snippet")
     src = ast.unparse(fs.node)
